@@ -342,7 +342,7 @@ def execute(case, stats, log):
                 if tuple(X.shape) != tuple(pre_meta[0]) or X.dtype != pre_meta[1]:
                     raise Violation(ID, "inplace-changed-metadata",
                                     f"event {i}: {kind} changed shape/dtype {pre_meta[0]}/{pre_meta[1]} -> {X.shape}/{X.dtype}", step=i)
-            log.append([i, kind, x, X.name])
+            log.append([i, kind, x, m.nm(X.name)])
             continue
         try:
             out = m.apply(ev)
